@@ -106,6 +106,7 @@ template<class T> struct Driver {
   std::unique_ptr<TD> sk[2 * NS];   // i + NS = the twin of i restored from an image of i
   Proj last[2 * NS];
   bool twin[NS] = {false, false, false};
+  bool twin_sb[NS] = {false, false, false};   // the twin was restored from the image of a single BUFFERED value (key of a known finding)
   bool tainted[2 * NS] = {false, false, false, false, false, false};
   bool foreign[2 * NS] = {false, false, false, false, false, false};   // content came from an image of the reference implementation
   bool rst[2 * NS] = {false, false, false, false, false, false};   // the object was restored from an image (C09 attribution)
@@ -446,7 +447,7 @@ template<class T> struct Driver {
     { Ev e("Obs"); e.i("id", 0).raw("r", proj_json(project(*sk[0]))); e.emit(); }
   }
 
-  void twin_mark(int i) { Ev("Twin").i("a", i).i("b", i + NS).emit(); }
+  void twin_mark(int i) { Ev("Twin").i("a", i).i("b", i + NS).b("sb_origin", twin_sb[i]).emit(); }
 
   void segment(long seg, long events) {
     Ev("Begin").i("seg", seg).str("T", sizeof(T) == 8 ? "double" : "float").d("zero", 0.0).d("one", 1.0).emit();
@@ -456,6 +457,19 @@ template<class T> struct Driver {
     mode = (int)g.below(8); cur = (double)g.range(-100, 100); scale = (long)g.range(3, 400);
     infmode = g.chance(8);
     mk(0);
+    if (serde_pct >= 10 && g.chance(30)) {
+      // serde profile, directed: an image taken while the sketch holds ONE value, still buffered; the restored twin then
+      // receives the same updates across (at least) one buffer-full compress of the original, and both are queried
+      do_updates(0, std::vector<double>{draw()});
+      do_ser(0, 0, true, 0, true);
+      do_deser(0, NS); twin[0] = true; twin_sb[0] = true; twin_mark(0);
+      for (long left = 4 * last[0].cap + (long)g.range(2, 40); left > 0; ) {
+        long m = std::min(left, (long)g.range(20, 200)); left -= m;
+        std::vector<double> vals; for (long j = 0; j < m; j++) vals.push_back(draw());
+        do_updates(0, vals); do_updates(NS, vals); twin_mark(0);
+      }
+      auto ps = rank_pool(last[0]); do_quantgrid(0, ps); do_quantgrid(NS, ps); twin_mark(0);
+    }
     for (long n = 0; n < events; n++) {
       int i = (int)g.below(NS);
       if (!sk[i]) { if (g.chance(30)) { mk(i); continue; } i = 0; }
@@ -519,7 +533,7 @@ template<class T> struct Driver {
         if (what < 5) {
           do_ser(i, b, wb, hdr, true);
           if (tw) { do_ser(i + NS, b, wb, hdr, false); twin_mark(i); }
-          if (what < 3) { do_deser(b, i + NS); twin[i] = true; twin_mark(i); }
+          if (what < 3) { const bool sb = wb && last[i].total == 1 && last[i].nb == 1; do_deser(b, i + NS); twin[i] = true; twin_sb[i] = sb; twin_mark(i); }
         } else if (blive[b]) {
           int j = (int)g.below(NS);
           do_deser(b, j);
